@@ -243,3 +243,29 @@ _patch("C11", "note", "URL/ctx wiring in run.go is exercised by the C06 engines.
        "concurrent clients.")
 _patch("C11", "technique", "+ differential correspondence check",
        "+ differential correspondence check + end-to-end per-profile answers under concurrency")
+_patch("C18", "text", "sorted-insertion spec and views_agree evaluated on the implementation's own outputs.",
+       "sorted-insertion spec and views_agree evaluated on the implementation's own outputs. Over time (C18_table_catches_up, generic in table "
+       "type and parser): the lazily refreshed hosts / lease tables (re-check every 5 s, re-read only when modification time or size differ) "
+       "work on the table parsed from the file on disk from one interval after the last lookup that preceded the change onwards; the limit "
+       "(a change keeping both stamps is never seen) is stated as C18_same_stamp_never_reloaded. Tie: histories of file replacements, virtual "
+       "waiting and lookups on one real discovery.Hosts, compared lookup by lookup; quiet periods of minutes to days in the mDNS histories.")
+_patch("C18", "technique", "+ differential correspondence check incl. real UDP mDNS packets",
+       "+ refresh state machine with catch-up theorem + differential correspondence check incl. real UDP mDNS packets and file-change histories")
+_patch("C05", "text", "the extracted boolean spec is also evaluated on the implementation's own replies.",
+       "the extracted boolean spec is also evaluated on the implementation's own replies. The size constants of the model (512, 4094, 65507, "
+       "65535) are re-read from the source by a Go-AST translator on every run and Properties/C05_consts.v states that they agree.")
+_patch("C05", "technique", "+ differential correspondence check", "+ generated-constants instance + differential correspondence check")
+_patch("C08", "text", "state and ordered callback log compared after every op.",
+       "state and ordered callback log compared after every op; probes that hang until their context ends (explicit and background elections). "
+       "The manager's constants (error threshold 10, 2 h, 10 s) are re-read from the source on every run (Properties/C08_consts.v).")
+_patch("C09", "text", "Tie: as C08 plus deadlock watchdog and crash detection per script.",
+       "Tie: as C08 (incl. the generated-constants instance) plus deadlock watchdog and crash detection per script.")
+_patch("C03", "text", "(real proxy + real DoH/DNS53 servers, fault menu, latency <= timeout+300 ms).",
+       "(real proxy + real DoH/DNS53 servers, a menu of 25 faults incl. stray datagrams, two-fault sequences on one query and exchanges over a "
+       "reused TCP connection, latency <= timeout+300 ms).")
+_patch("C12", "text", "compared with the extracted model;",
+       "compared with the extracted model -- also when the table object has lived on an earlier file of any age and the file changed six seconds "
+       "of (virtual) waiting ago;")
+_patch("C04", "text", "judged by the extracted c04_ok spec.",
+       "judged by the extracted c04_ok spec; every third storm on two listen addresses, one in twelve starting with a hold of every slot for "
+       "longer than any duration constant found in proxy/*.go while a TCP connection and a datagram wait.")
